@@ -188,6 +188,10 @@ struct World6 {
     legit_checks: u64,
     retention_checks: u64,
     malformed_trigger_checks: u64,
+    /// server frames since one that was fed a trigger message with a decodable target list
+    frames_since_valid_trig: u64,
+    /// a well-formed trigger message was queued outside `feed` for the next frame
+    injected_valid_trig: bool,
     lonely_floods: u64,
     frames: u64,
     /// a panic unwound through App::update: the world is poisoned, nothing more is fed
@@ -231,6 +235,8 @@ impl World6 {
             legit_checks: 0,
             retention_checks: 0,
             malformed_trigger_checks: 0,
+            frames_since_valid_trig: 0,
+            injected_valid_trig: false,
             lonely_floods: 0,
             frames: 0,
             dead: false,
@@ -248,6 +254,7 @@ impl World6 {
 
     fn server_update(&mut self, what: &str) -> bool {
         self.frames += 1;
+        self.frames_since_valid_trig += 1;
         FRAME_STARTED_MS.store(now_ms(), Relaxed);
         let r = catch_unwind(AssertUnwindSafe(|| self.server.update()));
         FRAME_STARTED_MS.store(0, Relaxed);
@@ -290,6 +297,14 @@ impl World6 {
         true
     }
 
+    /// A message from a connection other than the two standing hostile ones, processed by the next frame.
+    fn inject(&mut self, sender: Entity, ch: usize, m: Vec<u8>) {
+        if ch == 3 + self.proto && targets_decode(&m) {
+            self.injected_valid_trig = true;
+        }
+        self.server.world_mut().resource_mut::<RepliconServer>().insert_received(sender, ch, m);
+    }
+
     /// One hostile message, one server frame, all monitors.
     fn feed(&mut self, sender_auth: bool, ch: usize, bytes: &[u8]) {
         self.feed_batch(sender_auth, &[(ch, bytes.to_vec())]);
@@ -326,7 +341,10 @@ impl World6 {
         // does not decode (count, then that many valid entity encodings) must be discarded
         let trig_ch = 3 + self.proto;
         let trig_msgs: Vec<&Vec<u8>> = batch.iter().filter(|(ch, _)| *ch == trig_ch).map(|(_, b)| b).collect();
-        let all_trigs_malformed = !trig_msgs.is_empty() && trig_msgs.iter().all(|b| !targets_decode(b));
+        // (a trigger received in one frame may be observed in the next: only judge a frame whose own and
+        // whose predecessor's trigger messages were all malformed)
+        let any_valid_trig = trig_msgs.iter().any(|b| targets_decode(b)) || std::mem::take(&mut self.injected_valid_trig);
+        let all_trigs_malformed = !trig_msgs.is_empty() && !any_valid_trig && self.frames_since_valid_trig >= 1;
         let hostile_trigs_before = self.server.world().resource::<Seen>().hostile_trigs;
         if legit {
             self.good_seq += 1;
@@ -354,6 +372,9 @@ impl World6 {
             format!("a batch of {} messages (first {:02x?} on channel {}) from {} client", batch.len(), batch[0].1, batch[0].0, if sender_auth { "an authorized" } else { "an unauthorized" })
         };
         let ok = self.server_update(&what);
+        if any_valid_trig {
+            self.frames_since_valid_trig = 0;
+        }
         let max = MAX_REQ.load(Relaxed);
         let sum = SUM_REQ.load(Relaxed);
         self.max_single_seen = self.max_single_seen.max(max);
@@ -809,10 +830,11 @@ fn run_seed(seed: u64, thorough: bool, w: &mut World6) -> (&'static str, String)
                         // connection is gone before the server gets to process any of it
                         let e = w.server.world_mut().spawn(ConnectedClient { max_size: 1200 }).id();
                         if let Some((ch, m)) = w.handshake.clone() {
-                            w.server.world_mut().resource_mut::<RepliconServer>().insert_received(e, ch, m);
+                            w.inject(e, ch, m.to_vec());
                         }
                         let m: Vec<u8> = (0..r.below(12)).map(|_| hostile_byte(&mut r)).collect();
-                        w.server.world_mut().resource_mut::<RepliconServer>().insert_received(e, r.below(nch), m);
+                        let ch = r.below(nch);
+                        w.inject(e, ch, m);
                         w.server.world_mut().entity_mut(e).despawn();
                         w.feed(r.below(2) == 0, r.below(nch), &[]);
                     }
@@ -820,7 +842,8 @@ fn run_seed(seed: u64, thorough: bool, w: &mut World6) -> (&'static str, String)
                         let e = w.server.world_mut().spawn(ConnectedClient { max_size: 1200 }).id();
                         // hostile data from a client that connects and leaves at once
                         let m: Vec<u8> = (0..r.below(12)).map(|_| hostile_byte(&mut r)).collect();
-                        w.server.world_mut().resource_mut::<RepliconServer>().insert_received(e, r.below(nch), m);
+                        let ch = r.below(nch);
+                        w.inject(e, ch, m);
                         extra.push(e);
                     }
                     1 => {
